@@ -77,6 +77,17 @@ fn ctx_of_stream(p: &Prog) -> BTreeMap<String, String> {
     p.streams.iter().enumerate().map(|(i, s)| (sname(i), cname(s.ctx))).collect()
 }
 
+/// plain engine: process inputs[..cut], checkpoint, restore into a fresh engine, process the rest
+fn single_engine_cut(plain: &str, inputs: &[Ev], cut: usize) -> Result<Vec<OutEv>, String> {
+    let mut a = vh_gen::engine::Eng::new(plain)?;
+    let mut outs = a.process_all(&inputs[..cut])?;
+    let cp = a.engine.create_checkpoint();
+    let mut b = vh_gen::engine::Eng::new(plain)?;
+    b.engine.restore_checkpoint(&cp).map_err(|e| format!("restore: {}", e))?;
+    outs.extend(b.process_all(&inputs[cut..])?);
+    Ok(outs.iter().map(OutEv::from_event).collect())
+}
+
 fn run_once(c: &Case) -> Outcome {
     EXECUTIONS.fetch_add(1, std::sync::atomic::Ordering::Relaxed);
     let p = &c.prog;
@@ -94,6 +105,21 @@ fn run_once(c: &Case) -> Outcome {
     let mut cuts: Vec<usize> = c.cuts.iter().map(|x| idx::pick(*x, n + 1)).collect();
     cuts.sort();
     cuts.dedup();
+    // Domain guard: the operators of this program must survive a *single-engine* checkpoint/restore at the
+    // same input positions (that fidelity is C19/C20's subject, not the coordination across contexts).
+    for cut in &cuts {
+        match single_engine_cut(&plain, &c.inputs, *cut) {
+            Ok(outs) => {
+                if outs != want {
+                    let mut kinds: Vec<&str> = p.streams.iter().map(|s| s.op.kind()).filter(|k| !matches!(*k, "pass" | "filter" | "shift")).collect();
+                    kinds.sort();
+                    kinds.dedup();
+                    return Outcome::discard(format!("single-engine checkpoint/restore already changes the output (C19 domain): {}", kinds.join("+")));
+                }
+            }
+            Err(e) => return Outcome::discard(format!("single-engine checkpoint/restore failed (C19 domain): {}", vh_common::truncate(&e, 60))),
+        }
+    }
     let last_cut = *cuts.last().unwrap_or(&0);
     let crash_at = last_cut + idx::pick(c.tail, n - last_cut + 1);
 
